@@ -3,6 +3,7 @@ module verifh
 go 1.21
 
 require (
+	github.com/antlr/antlr4/runtime/Go/antlr v0.0.0-20211115101625-aeaa445b4d4f
 	github.com/anz-bank/golden-retriever v0.43.0
 	github.com/anz-bank/sysl v0.0.0
 	github.com/spf13/afero v1.11.0
@@ -13,7 +14,6 @@ require (
 	aqwari.net/xml v0.0.0-20210331023308-d9421b293817 // indirect
 	dario.cat/mergo v1.0.0 // indirect
 	github.com/ProtonMail/go-crypto v1.0.0 // indirect
-	github.com/antlr/antlr4/runtime/Go/antlr v0.0.0-20211115101625-aeaa445b4d4f // indirect
 	github.com/anz-bank/pkg v0.0.48 // indirect
 	github.com/arr-ai/arrai v0.321.0 // indirect
 	github.com/arr-ai/frozen v0.20.3 // indirect
